@@ -33,10 +33,15 @@ fn died(e: &LspError, method: &str, srv: &mut LspServer, on: &str) -> (String, S
 }
 
 fn emitted(texts: &[(String, String)]) -> Result<doc::Doc, String> {
+    emitted_text(texts).map(|(d, _)| d)
+}
+
+/// The abstract document and the YAML text it was read from.
+fn emitted_text(texts: &[(String, String)]) -> Result<(doc::Doc, String), String> {
     match pipeline::run(&pipeline::files_of(texts), "main.oal") {
         Run::Doc(y, _) => {
             let v: serde_yaml::Value = serde_yaml::from_str(&y).map_err(|e| e.to_string())?;
-            Ok(doc::extract(&v))
+            Ok((doc::extract(&v), y))
         }
         Run::Rejected(e) => Err(format!("rejected: {}", e.class())),
         Run::EvalError(e, _) => Err(format!("evaluation error: {e}")),
@@ -240,7 +245,7 @@ pub fn sweep(p: &Program, variant: usize) -> Result<(u64, u64), (String, String)
             }
             new_texts[*m].1 = t;
         }
-        match emitted(&new_texts) {
+        match emitted_text(&new_texts) {
             Err(why) => {
                 let class: String = why.chars().take_while(|c| *c != '(').take(40).collect();
                 return Err((
@@ -248,7 +253,20 @@ pub fn sweep(p: &Program, variant: usize) -> Result<(u64, u64), (String, String)
                     format!("at {here} (`{old}` -> `{new}`): {why}"),
                 ));
             }
-            Ok(d) => {
+            Ok((d, yaml)) => {
+                // The same document, to the letter: a rename keeps every token where it was in
+                // the token list, and the names of implicit components depend on nothing else.
+                if !old.starts_with('@') {
+                    if let Ok((_, before)) = emitted_text(&l.texts) {
+                        if before != yaml && doc::compare(&d, &original).is_ok() {
+                            let line = before.lines().zip(yaml.lines()).find(|(a, b)| a != b).map(|(a, b)| format!("`{}` became `{}`", a.trim(), b.trim())).unwrap_or_else(|| "different length".into());
+                            return Err((
+                                format!("rename | edited sources compile to a different text (names of implicit components) | cursor on {on}"),
+                                format!("at {here} (`{old}` -> `{new}`): {line}"),
+                            ));
+                        }
+                    }
+                }
                 let want = if old.starts_with('@') {
                     rename_component(&original, old.trim_start_matches('@'), "9z-$")
                 } else {
@@ -413,7 +431,7 @@ impl Engine for C18 {
         }
     }
     fn rule(&self) -> String {
-        "same programs and layouts as C17; prepareRename at EVERY UTF-16 position of every file; wherever it answers a range, rename to the fresh name `z-z$9-` (`@9z-$` for a reference; both use the whole identifier alphabet, the first one ends in a dash). Oracle: server alive after every request; prepareRename's range is the identifier under the cursor; edits pairwise disjoint; each edit replaces text equal to the old name; the edit set equals the binder occurrence plus all and only the uses bound to it by the reference resolver (for an import qualifier: the qualifier and every qualified use of it in that module); the edited sources are accepted by the real compiler and emit the original document modulo names of implicit components (for an @reference: with that component renamed). Non-trivial = at least one rename offered; distinct = distinct programs".into()
+        "same programs and layouts as C17; prepareRename at EVERY UTF-16 position of every file; wherever it answers a range, rename to the fresh name `z-z$9-` (`@9z-$` for a reference; both use the whole identifier alphabet, the first one ends in a dash). Oracle: server alive after every request; prepareRename's range is the identifier under the cursor; edits pairwise disjoint; each edit replaces text equal to the old name; the edit set equals the binder occurrence plus all and only the uses bound to it by the reference resolver (for an import qualifier: the qualifier and every qualified use of it in that module); the edited sources are accepted by the real compiler and emit the original document, byte for byte (for an @reference: the same abstract document with that component renamed). Non-trivial = at least one rename offered; distinct = distinct programs".into()
     }
     fn assumptions(&self) -> Vec<String> {
         vec![
